@@ -80,6 +80,38 @@ theorem C16_window (s : State σ) (d : Bytes) (a a' : Addr) (p p' : Nat) (now no
   have hit := guardHit_of_fields s2 d now now2 (H.parse d) (g1.trans f1) (g2.trans f2) (g3.trans f3) hw hq'
   simp [recv, hsize, hit]
 
+/-- **Truncated queries are idempotent whatever their questions** — without a QU question by the guard, with
+one by the `_deferred` scan ("if we get the same packet we ignore it"): the second copy of a valid TC query
+changes nothing, emits nothing, arms no new timer and consumes no random draw. -/
+theorem C16_truncated_idempotent (s : State σ) (d : Bytes) (a : Addr) (p : Nat) (now : Ms) (r r' : Nat)
+    (hv : (H.parse d).valid = true) (hqy : (H.parse d).isQuery = true) (htc : (H.parse d).truncated = true) :
+    (recv H (recv H s d a p now r).1 d a p now r').1 = (recv H s d a p now r).1
+    ∧ (recv H (recv H s d a p now r).1 d a p now r').2.1 = [] := by
+  by_cases hq : quQuery H d = false
+  · exact C16_idempotent H s d a p now r r' hq
+  · have hqu : (H.parse d).hasQU = true := by
+      simp only [quQuery, hqy, Bool.true_and, Bool.not_eq_false] at hq
+      exact hq
+    unfold recv
+    by_cases hov : Gen.Listener.oversize (d.length : Int) = true
+    · simp [hov]
+    · simp only [hov, Bool.false_eq_true, ↓reduceIte]
+      by_cases hg : guardHit s d now = true
+      · simp [hg]
+      · simp only [hg, Bool.false_eq_true, ↓reduceIte]
+        obtain ⟨f1, f2, f3⟩ := process_fields H s d a p now r
+        have hopen := guardHit_false_of_qu_query (process H s d a p now r).1 d now (H.parse d) f3 hqy hqu
+        simp only [hopen, Bool.false_eq_true, ↓reduceIte]
+        -- what the first copy did, case by case; the second copy finds its own packet in `_deferred`
+        unfold process
+        simp only [hv, hqy, Bool.not_true, Bool.false_eq_true, ↓reduceIte]
+        by_cases he : H.hasEntries s.down = true
+        · simp only [he, Bool.not_true, Bool.false_eq_true, ↓reduceIte, queryOrDefer, htc]
+          by_cases hany : ((alGet a s.deferred).getD []).any (fun q => q.data == d) = true
+          · simp [hany, he]
+          · simp [hany, he, alGet_alSet]
+        · simp [he]
+
 /-- a history has no QU query among its datagrams -/
 def Block.quiet (H : Handler σ ω β) : Block β → Bool
   | .recv d _ _ _ _ => !quQuery H d
